@@ -113,8 +113,16 @@ func (m *Machine) reflectMethod(r *RTypeV, name string, args []Value, meth *type
 		}
 		return ""
 	case "Size":
+		if hasSymLayout(t) {
+			sz, _ := m.symSizeAlign(t)
+			return sz
+		}
 		return f.BVC(64, uint64(m.W.Sizes.Sizeof(t)))
 	case "Align", "FieldAlign":
+		if hasSymLayout(t) {
+			_, al := m.symSizeAlign(t)
+			return al
+		}
 		return f.BVC(64, uint64(m.W.Sizes.Alignof(t)))
 	case "Elem":
 		switch u := t.Underlying().(type) {
@@ -155,7 +163,17 @@ func (m *Machine) reflectMethod(r *RTypeV, name string, args []Value, meth *type
 		if i < 0 || i >= u.NumFields() {
 			m.goPanic("reflect: Field index out of bounds")
 		}
-		return m.structField(u, i, meth.Type().(*types.Signature).Results().At(0).Type())
+		sf := m.structField(u, i, meth.Type().(*types.Signature).Results().At(0).Type())
+		if hasSymLayout(t) {
+			// layout-symbolic mode: the offset is the term the layout rule yields
+			st := meth.Type().(*types.Signature).Results().At(0).Type().Underlying().(*types.Struct)
+			for k := 0; k < st.NumFields(); k++ {
+				if st.Field(k).Name() == "Offset" {
+					sf.(*StructV).F[k] = m.symOffsetOf(t, []int{i})
+				}
+			}
+		}
+		return sf
 	case "AssignableTo":
 		o := args[0].(*IfaceV).V.(*RTypeV)
 		return f.BoolC(types.AssignableTo(t, o.T))
